@@ -152,3 +152,313 @@ func vh_C01_front_discovery_Q() {
 		symxAssert(len(ops) == want, "C01.front."+ver+".nothing-else-is-documented")
 	}
 }
+
+const vhFrontModelsSrc = `package ctl
+
+import "github.com/gopher-fleece/runtime"
+
+// Priority of an item
+type Prio string
+
+const (
+	PrioLow  Prio = "low"
+	PrioHigh Prio = "high"
+)
+
+// @Description An item
+type Item struct {
+	// The name
+	Name string ` + "`json:\"name\" validate:\"required\"`" + `
+	Prio Prio   ` + "`json:\"prio\"`" + `
+	Tags []string
+}
+
+// @Tag(Items)
+// @Route(/items)
+type Items struct {
+	runtime.GleeceController
+}
+
+// @Method(POST)
+// @Route(/{id})
+// @Path(id)
+// @Query(prio)
+// @Body(item)
+func (c *Items) Put(id string, prio Prio, item Item) (Item, error) { return item, nil }
+
+// @Method(GET)
+// @Route(/all)
+// @Query(tag)
+func (c *Items) List(tag *string) ([]Item, error) { return nil, nil }
+`
+
+// a flat, comparable rendering of everything the generators consume
+func vhFlattenMeta(m pipeline.GleeceFlattenedMetadata) []string {
+	var out []string
+	for _, c := range m.Flat {
+		out = append(out, "controller "+c.Name+" "+c.PkgPath+" "+c.Tag+" "+c.RestMetadata.Path)
+		for _, r := range c.Routes {
+			out = append(out, "route "+r.OperationId+" "+string(r.HttpVerb)+" "+r.RestMetadata.Path+" "+vhCodeStr(int(r.ResponseSuccessCode)))
+			for _, p := range r.FuncParams {
+				out = append(out, "param "+p.Name+" "+string(p.PassedIn)+" "+p.NameInSchema+" "+p.TypeMeta.Name+" "+p.TypeMeta.PkgPath+" serial="+vhCodeStr(int(p.UniqueImportSerial))+" v="+p.Validator)
+			}
+			for _, rv := range r.Responses {
+				out = append(out, "ret "+rv.TypeMetadata.Name+" serial="+vhCodeStr(int(rv.UniqueImportSerial)))
+			}
+		}
+	}
+	for _, s := range m.Models.Structs {
+		out = append(out, "struct "+s.Name+" "+s.PkgPath)
+		for _, f := range s.Fields {
+			out = append(out, "field "+f.Name+" "+f.Type+" "+f.Tag)
+		}
+	}
+	for _, e := range m.Models.Enums {
+		out = append(out, "enum "+e.Name+" "+e.Type+" "+strings.Join(e.Values, ","))
+	}
+	for _, k := range vhSortedKeys(m.Imports) {
+		// the alias lists come out of a set in arbitrary order; the routes template sorts them before use
+		out = append(out, "import "+k+" "+strings.Join(vhSortStrings(m.Imports[k]), ","))
+	}
+	return out
+}
+
+// C19 through the front end: repeated GenerateGraph/Validate/GenerateIntermediate on one pipeline, in any of the
+// orders an editor integration may call them, give what the first analysis and a brand-new session give
+func vh_C19_front_rerun_Q() {
+	fr, err := visitors.VhLoadSource(vhFrontModelsSrc, nil)
+	symxAssert(err == nil, "C19.front.fixture-loads")
+	if err != nil {
+		return
+	}
+	p := pipeline.VhNewPipeline(fr, vhFrontConfig())
+	first, err := p.Run()
+	symxAssert(err == nil, "C19.front.project-is-accepted")
+	if err != nil {
+		return
+	}
+	want := vhFlattenMeta(first)
+	symxAssert(len(first.Flat) == 1 && len(first.Flat[0].Routes) == 2 && len(first.Models.Structs) >= 1 && len(first.Models.Enums) == 1, "C19.front.first-analysis-sees-the-project")
+	n := 1 + symxChoice("extraSteps", 3)
+	var last pipeline.GleeceFlattenedMetadata
+	for k := 0; k < n; k++ {
+		switch symxChoice("step"+vhD(k), 4) {
+		case 0:
+			last, err = p.Run()
+		case 1:
+			err = p.GenerateGraph()
+			if err == nil {
+				last, err = p.GenerateIntermediate()
+			}
+		case 2:
+			_, err = p.Validate()
+			if err == nil {
+				last, err = p.GenerateIntermediate()
+			}
+		default:
+			last, err = p.GenerateIntermediate()
+		}
+		symxAssert(err == nil, "C19.front.repeated-step-succeeds")
+		if err != nil {
+			return
+		}
+		symxCover("C19.front.repeated")
+		symxAssert(vhSameStrings(vhFlattenMeta(last), want), "C19.front.repeated-analysis-equals-the-first")
+	}
+	// a brand-new session
+	fr2, err := visitors.VhLoadSource(vhFrontModelsSrc, nil)
+	if err != nil {
+		return
+	}
+	fresh, err := pipeline.VhNewPipeline(fr2, vhFrontConfig()).Run()
+	symxAssert(err == nil && vhSameStrings(vhFlattenMeta(fresh), want), "C19.front.fresh-session-equals-long-lived-session")
+}
+
+const vhFrontSigHead = `package ctl
+
+import (
+	"context"
+
+	"github.com/gopher-fleece/runtime"
+)
+
+type Model struct {
+	X string ` + "`json:\"x\"`" + `
+}
+
+type MyErr struct {
+	error
+	Code int
+}
+
+// @Route(/c)
+type Ctl struct {
+	runtime.GleeceController
+}
+
+// @Method(POST)
+// @Route(/op/{p0})
+// @Path(p0)
+// @Query(p1)
+// @Header(p2)
+// @Body(p3)
+// @Response(201) created
+// @ErrorResponse(404) missing
+`
+
+// two spellings of the same signature: one name per field, and p0/p2 grouped
+var vhFrontSigDecls = []string{
+	"func (c *Ctl) Op(ctx context.Context, p0 string, p1 *int, p2 string, p3 *Model) (Model, error) {\n\treturn Model{}, nil\n}\n",
+	"func (c *Ctl) Op(ctx context.Context, p0, p2 string, p1 *int, p3 *Model) (Model, error) {\n\treturn Model{}, nil\n}\n",
+}
+
+func vhFindFunc(f *ast.File, name string) *ast.FuncDecl {
+	for _, d := range f.Decls {
+		if fd, ok := d.(*ast.FuncDecl); ok && fd.Name.Name == name {
+			return fd
+		}
+	}
+	return nil
+}
+
+// vhUnpoint replaces the *T of parameter name by T
+func vhUnpoint(fd *ast.FuncDecl, name string) {
+	for _, fld := range fd.Type.Params.List {
+		for _, n := range fld.Names {
+			if n.Name == name {
+				if st, ok := fld.Type.(*ast.StarExpr); ok {
+					fld.Type = st.X
+				}
+			}
+		}
+	}
+}
+
+// C06 through the front end: the documented contract of an operation is the Go signature plus its annotations
+func vh_C06_front_signature_Q() {
+	grouped := symxChoice("grouped", 2)
+	p1Pointer, p3Pointer := symxBool("p1.pointer"), symxBool("p3.pointer")
+	p1Header := symxBool("p1.header")
+	p1Required := symxBool("p1.validatedRequired")
+	retShape := symxChoice("ret", 4) // (Model, error) | error | (string, error) | (Model, MyErr)
+	hasResponse, hasErrResponse := symxBool("response"), symxBool("errorResponse")
+	fr, err := visitors.VhLoadSource(vhFrontSigHead+vhFrontSigDecls[grouped], func(f *ast.File) {
+		fd := vhFindFunc(f, "Op")
+		if !p1Pointer {
+			vhUnpoint(fd, "p1")
+		}
+		if !p3Pointer {
+			vhUnpoint(fd, "p3")
+		}
+		loc := "Query"
+		if p1Header {
+			loc = "Header"
+		}
+		opts := ""
+		if p1Required {
+			opts = `, {validate: "required"}`
+		}
+		vhPatchDoc(f, "Op", "// @Query(p1)", "// @"+loc+"(p1"+opts+")")
+		if !hasResponse {
+			vhPatchDoc(f, "Op", "// @Response(", "// no explicit response")
+		}
+		if !hasErrResponse {
+			vhPatchDoc(f, "Op", "// @ErrorResponse(", "// no error response")
+		}
+		res := fd.Type.Results.List
+		body := fd.Body.List[0].(*ast.ReturnStmt)
+		switch retShape {
+		case 1:
+			fd.Type.Results.List = res[1:]
+			body.Results = body.Results[1:]
+		case 2:
+			res[0].Type = ast.NewIdent("string")
+			body.Results[0] = &ast.BasicLit{Kind: 9 /* token.STRING */, Value: `""`}
+		case 3:
+			res[1].Type = ast.NewIdent("MyErr")
+			body.Results[1] = &ast.CompositeLit{Type: ast.NewIdent("MyErr")}
+		}
+	})
+	symxAssert(err == nil, "C06.front.fixture-loads")
+	if err != nil {
+		return
+	}
+	meta, err := pipeline.VhNewPipeline(fr, vhFrontConfig()).Run()
+	if err != nil {
+		symxRecord("refused", err.Error())
+	}
+	symxAssert(err == nil, "C06.front.project-is-accepted")
+	if err != nil {
+		return
+	}
+	doc30, doc31 := vhNewDoc30(), vhNewDoc31()
+	cfg := &definitions.OpenAPIGeneratorConfig{}
+	symxAssert(swagen30.GenerateModelsSpec(doc30, &meta.Models) == nil && swagen31.GenerateModelsSpec(doc31, &meta.Models) == nil, "C06.front.models-no-error")
+	symxAssert(swagen30.GenerateControllersSpec(doc30, cfg, meta.Flat) == nil, "C06.front.30-no-error")
+	symxAssert(swagen31.GenerateControllersSpec(doc31, cfg, meta.Flat) == nil, "C06.front.31-no-error")
+	ops30, ops31 := vhOps30(doc30), vhOps31(doc31)
+	symxAssert(len(ops30) == 1 && len(ops31) == 1, "C06.front.one-operation")
+	if len(ops30) != 1 || len(ops31) != 1 {
+		return
+	}
+	symxCover("C06.front.documented")
+	// expectation from the signature
+	type want struct {
+		name, in string
+		required bool
+		typ      string
+	}
+	p1In := "query"
+	if p1Header {
+		p1In = "header"
+	}
+	p0 := want{"p0", "path", true, "string"}
+	p1 := want{"p1", p1In, !p1Pointer || p1Required, "integer"}
+	p2 := want{"p2", "header", true, "string"}
+	order := []want{p0, p1, p2}
+	if grouped == 1 {
+		order = []want{p0, p2, p1}
+	}
+	for vi, d := range []vhOpDetail{vhDetail30(&ops30[0]), vhDetail31(&ops31[0])} {
+		ver := []string{"30", "31"}[vi]
+		symxAssert(len(d.params) == 3, "C06.front."+ver+".path-query-header-parameters-only(context-never)")
+		for k := 0; k < len(order) && k < len(d.params); k++ {
+			w, g := order[k], d.params[k]
+			symxAssert(g.name == w.name && g.in == w.in, "C06.front."+ver+".parameters-in-signature-order")
+			symxAssert(g.required == w.required, "C06.front."+ver+".required-iff-non-pointer-or-path-or-validated")
+			symxAssert(g.ref == "" && g.typ == w.typ, "C06.front."+ver+".parameter-schema-of-declared-type")
+		}
+		symxAssert(d.hasBody && d.hasJSON && d.bodyJSONRef == "#/components/schemas/Model" && !d.hasForm, "C06.front."+ver+".body-parameter-is-the-json-request-body")
+		symxAssert(d.bodyRequired == !p3Pointer, "C06.front."+ver+".body-required-iff-non-pointer")
+		// responses
+		successCode := "200"
+		if retShape == 1 {
+			successCode = "204"
+		}
+		if hasResponse {
+			successCode = "201"
+		}
+		sr := vhRespFind(d.responses, successCode)
+		symxAssert(sr != nil, "C06.front."+ver+".success-code")
+		if sr != nil {
+			switch retShape {
+			case 1:
+				symxAssert(!sr.hasContent, "C06.front."+ver+".no-content-without-a-value")
+			case 2:
+				symxAssert(sr.hasContent && sr.contentRef == "" && sr.contentTyp == "string", "C06.front."+ver+".success-schema-of-the-value-type")
+			default:
+				symxAssert(sr.hasContent && sr.contentRef == "#/components/schemas/Model", "C06.front."+ver+".success-schema-of-the-value-type")
+			}
+		}
+		wantErr := "#/components/schemas/" + definitions.Rfc7807ErrorName
+		if retShape == 3 {
+			wantErr = "#/components/schemas/MyErr"
+		}
+		er := vhRespFind(d.responses, "404")
+		if hasErrResponse {
+			symxAssert(er != nil && er.hasContent && er.contentRef == wantErr, "C06.front."+ver+".error-response-with-the-error-type's-schema")
+		} else {
+			symxAssert(er == nil, "C06.front."+ver+".no-undeclared-error-response")
+		}
+	}
+}
